@@ -293,7 +293,7 @@ Definition reviewed_main_args_reads : list (string * string * string) :=
    ("cfile", "main", "file_name = args.filename or ('file.c' if args.cfile else 'file.h')");
    ("cfile", "main", "if args.cfile or args.hfile");
    ("debug", "main", "debug = args.debug");
-   ("file", "main", "stack += args.file if args.file else glob.glob('**/*.[ch]', recursive=True)");
+   ("file", "main", "stack += args.file if args.file else [it for it in glob.glob('**/*.[ch]', recursive=True) if not os.path.isdir(it)]");
    ("filename", "main", "file_name = args.filename or ('file.c' if args.cfile else 'file.h')");
    ("format", "main.<lambda>", "format = next(filter(lambda it: it.name == args.format, formatters))");
    ("hfile", "main", "file_data = args.cfile if args.cfile else args.hfile");
